@@ -21,45 +21,102 @@ Record gst := {
   unw : option gtriple     (* globals at entry of the outermost active `guarded` wrapper, if any *)
 }.
 
-(* writer-style: the commands a computation appends are explicit *)
-Definition G (A : Type) := gst -> (A + exn) * gst * list cmd.
-Definition ret {A} (a : A) : G A := fun s => (inl a, s, []).
-Definition bind {A B} (m : G A) (f : A -> G B) : G B :=
-  fun s => match m s with
-           | (inl a, s', c1) => match f a s' with (r, s'', c2) => (r, s'', c1 ++ c2) end
-           | (inr e, s', c1) => (inr e, s', c1)
-           end.
-Notation "x <- m ;; f" := (bind m (fun x => f)) (at level 61, m at next level, right associativity).
-Notation "m ;;; f" := (bind m (fun _ => f)) (at level 61, right associativity).
-Definition get : G gst := fun s => (inl s, s, []).
-Definition put (s' : gst) : G unit := fun _ => (inl tt, s', []).
-Definition emitc (c : cmd) : G unit := fun s => (inl tt, s, [c]).
-
 Definition cur_triple (s : gst) : gtriple := {| g_guard := guard s; g_ignore := ignore s; g_one := one s |}.
 Definition unw_triple (s : gst) : gtriple := match unw s with Some t => t | None => cur_triple s end.
-(* exception whose occurrence depends on values *)
-Definition raise_if (b : bexp) (e : exn) : G unit := fun s => (inl tt, s, [CRaiseIf b e (unw_triple s)]).
-(* exception decided by types / public values only *)
-Definition static_raise {A} (e : exn) : G A := fun s => (inr e, s, [CRaiseIf BTrue e (unw_triple s)]).
-
 Definition var_slc (v : var) : slc := {| sval := VWit v; wire := [(v, 1)]; oid := 0; good := good_var p v |}.
+Definition with_oid (x : slc) (o : Z) : slc := {| sval := sval x; wire := wire x; oid := o; good := good x |}.
 
-Definition privval (h : valexp) : G slc := fun s =>
-  let v := - (npriv s + 1) in
-  (inl (var_slc v),
-   {| npub := npub s; npriv := npriv s + 1; noid := noid s; guard := guard s; ignore := ignore s; one := one s; unw := unw s |},
-   [CAlloc Priv h]).
-Definition pubval (h : valexp) : G slc := fun s =>
-  let v := npub s + 1 in
-  (inl (var_slc v),
-   {| npub := npub s + 1; npriv := npriv s; noid := noid s; guard := guard s; ignore := ignore s; one := one s; unw := unw s |},
-   [CAlloc Pub h]).
-Definition fresh_oid : G Z := fun s =>
-  (inl (noid s), {| npub := npub s; npriv := npriv s; noid := noid s + 1; guard := guard s; ignore := ignore s; one := one s; unw := unw s |}, []).
-Definition set_globals (g : option slc) (i : bexp) (o : slc) : G unit := fun s =>
-  (inl tt, {| npub := npub s; npriv := npriv s; noid := noid s; guard := g; ignore := i; one := o; unw := unw s |}, []).
-Definition set_unw (u : option gtriple) : G unit := fun s =>
-  (inl tt, {| npub := npub s; npriv := npriv s; noid := noid s; guard := guard s; ignore := ignore s; one := one s; unw := u |}, []).
+(* The generator monad is a FREE monad over the few primitive effects the library has, so that properties
+   preserved by every primitive hold of every gadget and every program by one induction (Proofs/Frame.v).
+   [lvl] separates the code that can only change the runtime globals inside a try/finally region ([Local]:
+   runtime.guarded, lazy if_then_else) -- level false: all of runtime.py, boolean.py, fixedpoint.py and the
+   non-block part of branching.py -- from the block API (_if/_while/_range: add_guard / restore_guard called
+   explicitly, no try/finally) and ignore_errors(), which need [SetGlobals] and live at level true. *)
+Inductive M (lvl : bool) : Type -> Type :=
+| Ret {A} (a : A) : M lvl A
+| Raise {A} (e : exn) : M lvl A                                (* exception decided by types / public values only *)
+| Get {A} (k : gst -> M lvl A) : M lvl A
+| MPriv {A} (h : valexp) (k : slc -> M lvl A) : M lvl A          (* backend.privval *)
+| MPub {A} (h : valexp) (k : slc -> M lvl A) : M lvl A           (* backend.pubval *)
+| Fresh {A} (k : Z -> M lvl A) : M lvl A                        (* a new Python object identity *)
+| Emit {A} (c : cmd) (k : M lvl A) : M lvl A                    (* a constraint or an observation *)
+| RaiseIf {A} (b : bexp) (e : exn) (k : M lvl A) : M lvl A      (* exception whose occurrence depends on values *)
+| Local {A X} (g : slc) (i : bexp) (body : M lvl X) (k : X -> M lvl A) : M lvl A
+      (* try/finally region: inside, guard = g, _ignore_errors = i, LinComb.ONE = g; restored on both exits *)
+| SetGlobals {A} (H : lvl = true) (g : option slc) (i : bexp) (o : slc) (k : M lvl A) : M lvl A.
+Arguments Ret {lvl A} _. Arguments Raise {lvl A} _. Arguments Get {lvl A} _. Arguments MPriv {lvl A} _ _.
+Arguments MPub {lvl A} _ _. Arguments Fresh {lvl A} _. Arguments Emit {lvl A} _ _. Arguments RaiseIf {lvl A} _ _ _.
+Arguments Local {lvl A X} _ _ _ _. Arguments SetGlobals {lvl A} _ _ _ _ _.
+
+Fixpoint bind {lvl A B} (m : M lvl A) : (A -> M lvl B) -> M lvl B :=
+  match m in M _ T return (T -> M lvl B) -> M lvl B with
+  | Ret a => fun f => f a
+  | Raise e => fun _ => Raise e
+  | Get k => fun f => Get (fun s => bind (k s) f)
+  | MPriv h k => fun f => MPriv h (fun x => bind (k x) f)
+  | MPub h k => fun f => MPub h (fun x => bind (k x) f)
+  | Fresh k => fun f => Fresh (fun o => bind (k o) f)
+  | Emit c k => fun f => Emit c (bind k f)
+  | RaiseIf b e k => fun f => RaiseIf b e (bind k f)
+  | Local g i body k => fun f => Local g i body (fun x => bind (k x) f)
+  | SetGlobals H g i o k => fun f => SetGlobals H g i o (bind k f)
+  end.
+Definition ret {lvl A} (a : A) : M lvl A := Ret a.
+Notation "x <- m ;; f" := (bind m (fun x => f)) (at level 61, m at next level, right associativity).
+Notation "m ;;; f" := (bind m (fun _ => f)) (at level 61, right associativity).
+
+Definition upd_counters (s : gst) (np nw no : Z) : gst :=
+  {| npub := np; npriv := nw; noid := no; guard := guard s; ignore := ignore s; one := one s; unw := unw s |}.
+Definition upd_globals (s : gst) (g : option slc) (i : bexp) (o : slc) (u : option gtriple) : gst :=
+  {| npub := npub s; npriv := npriv s; noid := noid s; guard := g; ignore := i; one := o; unw := u |}.
+
+(* the semantics of a computation: final result, final state, commands appended (writer style) *)
+Fixpoint run {lvl A} (m : M lvl A) : gst -> (A + exn) * gst * list cmd :=
+  match m in M _ T return gst -> (T + exn) * gst * list cmd with
+  | Ret a => fun s => (inl a, s, [])
+  | Raise e => fun s => (inr e, s, [CRaiseIf BTrue e (unw_triple s)])
+  | Get k => fun s => run (k s) s
+  | MPriv h k => fun s => let v := - (npriv s + 1) in
+                match run (k (var_slc v)) (upd_counters s (npub s) (npriv s + 1) (noid s)) with (r, s', c) => (r, s', CAlloc Priv h :: c) end
+  | MPub h k => fun s => let v := npub s + 1 in
+               match run (k (var_slc v)) (upd_counters s (npub s + 1) (npriv s) (noid s)) with (r, s', c) => (r, s', CAlloc Pub h :: c) end
+  | Fresh k => fun s => run (k (noid s)) (upd_counters s (npub s) (npriv s) (noid s + 1))
+  | Emit c k => fun s => match run k s with (r, s', cs) => (r, s', c :: cs) end
+  | RaiseIf b e k => fun s => match run k s with (r, s', cs) => (r, s', CRaiseIf b e (unw_triple s) :: cs) end
+  | Local g i body k => fun s =>
+      let s_in := upd_globals s (Some g) i g (match unw s with None => Some (cur_triple s) | Some u => Some u end) in
+      match run body s_in with
+      | (inl x, s1, c1) =>
+          match run (k x) (upd_globals s1 (guard s) (ignore s) (one s) (unw s)) with (r, s2, c2) => (r, s2, c1 ++ c2) end
+      | (inr e, s1, c1) => (inr e, upd_globals s1 (guard s) (ignore s) (one s) (unw s), c1)
+      end
+  | SetGlobals _ g i o k => fun s => run k (upd_globals s g i o (unw s))
+  end.
+
+(* level false embeds in level true *)
+Fixpoint lift {A} (m : M false A) : M true A :=
+  match m in M _ T return M true T with
+  | Ret a => Ret a
+  | Raise e => Raise e
+  | Get k => Get (fun s => lift (k s))
+  | MPriv h k => MPriv h (fun x => lift (k x))
+  | MPub h k => MPub h (fun x => lift (k x))
+  | Fresh k => Fresh (fun o => lift (k o))
+  | Emit c k => Emit c (lift k)
+  | RaiseIf b e k => RaiseIf b e (lift k)
+  | Local g i body k => Local g i (lift body) (fun x => lift (k x))
+  | SetGlobals H g i o k => match Bool.diff_false_true H with end
+  end.
+
+Definition G (A : Type) := M false A.        (* everything in runtime.py / boolean.py / fixedpoint.py *)
+Definition get {lvl} : M lvl gst := Get Ret.
+Definition emitc {lvl} (c : cmd) : M lvl unit := Emit c (Ret tt).
+Definition raise_if {lvl} (b : bexp) (e : exn) : M lvl unit := RaiseIf b e (Ret tt).
+Definition static_raise {lvl A} (e : exn) : M lvl A := Raise e.
+Definition privval {lvl} (h : valexp) : M lvl slc := MPriv h Ret.
+Definition pubval {lvl} (h : valexp) : M lvl slc := MPub h Ret.
+Definition fresh_oid {lvl} : M lvl Z := Fresh Ret.
+Definition set_globals (g : option slc) (i : bexp) (o : slc) : M true unit := SetGlobals eq_refl g i o (Ret tt).
 
 (* ---- pure LinComb constructors ---- *)
 Definition constv (k : Z) : slc := {| sval := VConst k; wire := [(0, k)]; oid := 0; good := good_const p k |}.          (* ConstVal(k) = LinComb(k, one()*k) *)
@@ -77,7 +134,6 @@ Definition subc (x : slc) (k : Z) : slc := add x (constv (- k)).    (* x - k  = 
 Definition rsubc (k : Z) (x : slc) : slc := add (neg x) (constv k). (* k - x  = (-x).__radd__(k) = (-x) + ConstVal(k) *)
 Definition recast_modp (x : slc) : slc :=            (* x.value %= modulus (in place) *)
   {| sval := VModP (sval x); wire := wire x; oid := oid x; good := good_modp p _ _ (good x) |}.
-Definition with_oid (x : slc) (o : Z) : slc := {| sval := sval x; wire := wire x; oid := o; good := good x |}.
 Definition zero_anon : slc := {| sval := VConst 0; wire := []; oid := 0; good := good_zero p |}.
 
 Definition emit (a b y : slc) : G unit := emitc (CEmit a b y).       (* add_constraint_unsafe *)
@@ -304,24 +360,29 @@ Definition invert_lc (x : slc) : G slc := bs <- to_bits x nbits ;; ret (from_bit
 (* x >> k for a public k >= 0 *)
 Definition rshift_int (x : slc) (k : nat) : G slc := bs <- to_bits x nbits ;; ret (from_bits (skipn k bs)).
 
-(* add_guard(cond) for a LinComb cond; returns the backup triple *)
-Definition add_guard (cnd : slc) : G gtriple :=
+(* the first half of add_guard(cond) for a LinComb cond: value check and the (conjoined) guard object.
+   `guard & cond` is the bitwise-AND gadget, executed under the OLD guard *)
+Definition new_guard (cnd : slc) : G (slc * bexp) :=
   s <- get ;;
   raise_if (BAnd (BNot (ignore s)) (BAnd (vne (sval cnd) (VConst 0)) (vne (sval cnd) (VConst 1)))) RuntimeError ;;;
   g <- match guard s with None => ret cnd | Some g0 => land_lc g0 cnd end ;;
   o <- (if oid g =? 0 then fresh_oid else ret (oid g)) ;;
-  let g' := with_oid g o in
-  set_globals (Some g') (BOr (ignore s) (BEq (sval cnd) (VConst 0))) g' ;;;
-  ret (cur_triple s).
-Definition restore_guard (b : gtriple) : G unit := set_globals (g_guard b) (g_ignore b) (g_one b).
-(* guarded(cond)(fn)(): restore on both exits; an exception propagating out restores the entry globals *)
+  ret (with_oid g o, BOr (ignore s) (BEq (sval cnd) (VConst 0))).
+(* guarded(cond)(fn)(): add_guard; try: fn() finally: restore_guard -- the [Local] region *)
 Definition guarded {A} (cnd : slc) (body : G A) : G A :=
-  s0 <- get ;;
-  bak <- add_guard cnd ;;
-  (match unw s0 with None => set_unw (Some bak) | Some _ => ret tt end) ;;;
-  r <- body ;;
-  restore_guard bak ;;; set_unw (unw s0) ;;; ret r.
+  gi <- new_guard cnd ;;
+  Local (fst gi) (snd gi) body Ret.
+(* add_guard / restore_guard called explicitly (block API): no try/finally *)
+Definition add_guard (cnd : slc) : M true gtriple :=
+  s <- get ;;
+  gi <- lift (new_guard cnd) ;;
+  set_globals (Some (fst gi)) (snd gi) (fst gi) ;;;
+  ret (cur_triple s).
+Definition restore_guard (b : gtriple) : M true unit := set_globals (g_guard b) (g_ignore b) (g_one b).
 End WithCfg.
 End WithP.
 Notation "x <- m ;; f" := (bind m (fun x => f)) (at level 61, m at next level, right associativity).
 Notation "m ;;; f" := (bind m (fun _ => f)) (at level 61, right associativity).
+Arguments Ret {p lvl A} _. Arguments Raise {p lvl A} _. Arguments Get {p lvl A} _. Arguments MPriv {p lvl A} _ _.
+Arguments MPub {p lvl A} _ _. Arguments Fresh {p lvl A} _. Arguments Emit {p lvl A} _ _. Arguments RaiseIf {p lvl A} _ _ _.
+Arguments Local {p lvl A X} _ _ _ _. Arguments SetGlobals {p lvl A} _ _ _ _ _.
